@@ -103,7 +103,7 @@ def involution_table(ctx):
         compare_result(ctx, c, ctx.func(f"codegen.{cg}"), got, want, op)
 
 
-@rule("C04.grade", props=["C04"], min_instances=19)
+@rule("C04.grade", props=["C04", "C08", "C15"], min_instances=19)
 def grade_rule(ctx):
     """grade() returns exactly the stored coefficients of the requested grades (shared with C15.accessors)."""
     check_accessors(ctx, ctx.repo)
